@@ -28,11 +28,12 @@ def run_cases(args):
 
 def run_one(lp, S, a):
     T, n, fail, stop_after = a["T"], a["n"], set(a.get("fail", [])), a.get("stop_after")
-    sch = S.Sched(seed=a.get("seed", 0), choices=a.get("choices"), exhaustive=bool(a.get("exhaustive")))
+    sch = S.Sched(seed=a.get("seed", 0), choices=a.get("choices"), exhaustive=bool(a.get("exhaustive")), policy=a.get("policy", "random"))
     state = {}
     saved = S.install(lp, sch, state)
     res = {"case": a}
     got = []
+    pulled = {"n": 0}
     def f(x):
         if x in fail:
             raise RuntimeError(f"boom {x}")
@@ -44,7 +45,13 @@ def run_one(lp, S, a):
     try:
         try:
             with pool:
-                src = range(n) if n is not None else itertools.count()
+                def counted(it):
+                    for x in it:
+                        pulled["n"] += 1
+                        if pulled["n"] > a.get("pull_limit", 10 ** 9):
+                            raise RuntimeError("pull-limit")       # run-away read-ahead (reported by C14)
+                        yield x
+                src = counted(range(n) if n is not None else itertools.count())
                 # mark forwarded failures for the label abstraction: the consumer re-raises after a get
                 for i, y in enumerate(pool.imap_unordered(f, src)):
                     got.append(y)
@@ -59,7 +66,7 @@ def run_one(lp, S, a):
         stuck = sch.drain()
     finally:
         S.uninstall(lp, saved)
-    res.update({"status": status, "got": got, "labels": list(sch.labels), "P": state.get("P"),
+    res.update({"status": status, "got": got, "labels": list(sch.labels), "P": state.get("P"), "pulled": pulled["n"],
                 "stuck": stuck, "taken": sch.taken, "branching": sch.branching,
                 "fields": [pool._active_threads, pool._to_process is None, pool._results is None],
                 "threads_alive": sum(isinstance(t, lp.Collector) and t.is_alive() for t in threading.enumerate())})
